@@ -581,6 +581,15 @@ impl Simk {
         for fd in fds::take_ring_fd_closed() {
             self.ring_fd_closed(fd);
         }
+        // Miri: there is no close(2) interposer (Miri implements close itself), ask
+        // whether the descriptors of the live rings are still open.
+        #[cfg(miri)]
+        {
+            let closed: Vec<i32> = self.rings.keys().copied().filter(|fd| !fds::os_open(*fd)).collect();
+            for fd in closed {
+                self.ring_fd_closed(fd);
+            }
+        }
     }
 
     /// Mapping ledger check at the end of a history: every region mapped must
